@@ -23,12 +23,20 @@ McInit == [bal   |-> [a \in McAcc |-> CASE a = "a1" -> 409000 [] a = "a2" -> 186
            code  |-> [a \in McAcc |-> a \in {"KS", "KR", "KX", "KD", "KO"}],
            sup   |-> 200, frz |-> FALSE,
            h |-> 3, T |-> 1000000, I |-> 1000, rwd |-> <<0, 0>>, rwt |-> <<0, 0>>]
-\* The term-boundary worlds: the setup chain continues with empty stable blocks up to the snapshot block (height T),
-\* which elects a3 (5 votes) and one genesis deputy for term 1; the scenario blocks are the interim blocks T+1 .. T+I,
-\* the reward block T+I+1 and the blocks after it.  Every scenario block is stabilised when it is committed.
-McCtxTerm  == [McCtx EXCEPT !.deps = <<{"M1", "M2"}, {"a3", "M2"}>>]
-McInitTerm == [McInit EXCEPT !.h = 4, !.T = 4, !.I = 1]
-McInitTerm2 == [McInit EXCEPT !.h = 6, !.T = 6, !.I = 2]
+\* The term-boundary worlds: setup block 4 gives both genesis deputies a deposit (M1 300, M2 400 LEMO) and lets M1 and a4
+\* vote for a3; the setup chain continues with empty stable blocks up to the snapshot block (height T), which elects a3
+\* and M2 for term 1 (M1 is not re-elected); the scenario blocks are the interim blocks T+1 .. T+I, the reward block
+\* T+I+1 and the blocks after it.  Every scenario block is stabilised when it is committed.
+McCtxTerm  == [McCtx EXCEPT !.deps = <<{"M1", "M2"}, {"a3", "M2"}>>,
+                            !.payees = << <<[a |-> "I", v |-> 0], [a |-> "I", v |-> 0]>>, <<[a |-> "a3", v |-> 12], [a |-> "I", v |-> 4]>> >>]
+McInitT    == [McInit EXCEPT !.bal = [a \in McAcc |-> CASE a = "a1" -> 408796 [] a = "a2" -> 186000 [] a = "a3" -> 256524
+                                        [] a = "a4" -> 955664 [] a = "I" -> 517312 [] a = "P" -> 1000000
+                                        [] a = "M1" -> 765148 [] a = "M2" -> 254708 [] a = "F" -> 995655848 [] OTHER -> 0],
+                             !.votes = [a \in McAcc |-> CASE a = "a3" -> 12 [] a = "M1" -> 3 [] a = "M2" -> 4 [] OTHER -> 0],
+                             !.vf = [a \in McAcc |-> IF a \in {"a1", "a4", "M1"} THEN "a3" ELSE NONE],
+                             !.dep = [a \in McAcc |-> CASE a = "a3" -> 300000 [] a = "M1" -> 300000 [] a = "M2" -> 400000 [] OTHER -> 0]]
+McInitTerm  == [McInitT EXCEPT !.h = 5, !.T = 5, !.I = 1]
+McInitTerm2 == [McInitT EXCEPT !.h = 6, !.T = 6, !.I = 2]
 McGas == [xfer |-> 21000, vote |-> 35000, reg |-> 112000, topup |-> 112000, unreg |-> 112000, issue |-> 63000,
           repl |-> 70000, axfer |-> 39000, freeze |-> 43000, unfreeze |-> 43000, box |-> 40000, setrew |-> 24000]
 \* amount classes of the asset transactions (cfg files cannot hold negative numbers): negative, zero, one, all of
